@@ -24,6 +24,10 @@
 // <us> microseconds after the request arrived; <after> = what the operation does once it sees the cancelled
 // context (0 goes on, 1 returns nil, 2 one last error payload then nil); <seen> = number of responses that had
 // been produced when the context was cancelled (-1: it never was).
+// Payload CONTENTS (strings in data, error messages, extensions, labels, paths, panic texts) are drawn from the
+// content classes of content.go ('%' and printf verbs, CR/LF, SSE fields, this exchange's multipart delimiters,
+// quotes, non-ASCII, HTML, controls, long values); cases "content:<class>@<place>" put every class at every
+// member of a response on both transports.
 // -judge: no cases are generated; JSON lines on stdin (exchanges of a GENERATED server driven by
 // go/universal/httprun.go with `record`) are judged by the same oracles and printed in the same format.
 // With -race -par 1 every case is announced on stderr ("BEGIN <id>") so a
